@@ -6,7 +6,7 @@ CONSTANTS
   NP = 1
   Names = {"a", "b"}
   Vals = {1, 2}
-  Acts = {"CreateGroup", "CreateObject", "AddData", "SetVal", "Rename", "RemoveViaWorkspace", "RemoveViaParent", "Close", "Open", "CallClosed", "AddDataFails", "SaveAs", "Helper", "Move", "Copy", "AddToGroup", "Collect", "DropRef"}
+  Acts = {"CreateGroup", "CreateObject", "AddData", "SetVal", "Rename", "RemoveViaWorkspace", "RemoveViaParent", "Close", "Open", "CallClosed", "AddDataFails", "SaveAs", "Helper", "OpenAgain", "Move", "Copy", "AddToGroup", "Collect", "DropRef"}
   Deviations = {"CloseKeepsOrphans"}
   MaxDepth = 6
 CONSTRAINT DepthBound
